@@ -8,30 +8,32 @@ import (
 	"go/constant"
 	"go/token"
 	"go/types"
+	"strings"
 
 	"golang.org/x/tools/go/packages"
 	"golang.org/x/tools/go/ssa"
 )
 
 type driverFacts struct {
-	ok      bool
-	p       *packages.Package
-	fd      *ast.FuncDecl
-	fn      *ssa.Function
-	ac      *ssa.Call // the ACTION call
-	typ     ssa.Value
-	param   ssa.Value
-	err     ssa.Value
-	stack   ssa.Value
-	tok     *ssa.Alloc // the current token variable
-	kShift  int64
-	kReduce int64
-	kAccept int64
+	ok                    bool
+	p                     *packages.Package
+	fd                    *ast.FuncDecl
+	fn                    *ssa.Function
+	ac                    *ssa.Call // the ACTION call
+	typ                   ssa.Value
+	param                 ssa.Value
+	err                   ssa.Value
+	stack                 ssa.Value
+	tok                   *ssa.Alloc // the current token variable
+	kShift                int64
+	kReduce               int64
+	kAccept               int64
 	shiftPush, reducePush ssa.CallInstruction
-	gotoCall *ssa.Call
-	tokenCB, prodCB []ssa.CallInstruction
-	nextTokCalls []*ssa.Call
-	popLoop map[*ssa.BasicBlock]bool
+	gotoCall              *ssa.Call
+	tokenCB, prodCB       []ssa.CallInstruction
+	nextTokCalls          []*ssa.Call
+	popLoop               map[*ssa.BasicBlock]bool
+	probes                []*ssa.Call // ACTION lookups for a terminal written in the driver itself
 }
 
 func lrConst(p *packages.Package, name string) (int64, bool) {
@@ -103,6 +105,22 @@ func findDriver(c *Ctx, g *ebnfGrammar, rule string) *driverFacts {
 			}
 		}
 	})
+	if len(acs) > 1 {
+		// several lookups: the driver's own is the one whose terminal is not a constant; a lookup for a terminal written in
+		// the driver itself asks the table about a token that is not the look-ahead (a probe), and what the driver does with
+		// the answer is judged by the rules on the look-ahead token below
+		var own []*ssa.Call
+		for _, a := range acs {
+			if len(a.Call.Args) >= 2 {
+				if _, isConst := a.Call.Args[1].(*ssa.Const); isConst {
+					d.probes = append(d.probes, a)
+					continue
+				}
+			}
+			own = append(own, a)
+		}
+		acs = own
+	}
 	if len(acs) != 1 || d.gotoCall == nil {
 		c.Lost(rule, "exactly one ACTION call and one GOTO call in the driver")
 		return nil
@@ -165,9 +183,29 @@ func checkDriver(c *Ctx, g *ebnfGrammar, rule string) *driverFacts {
 			peek = call
 		}
 	}
-	if !c.Check(rule, "ACTION is consulted with the state on top of the stack", pos, peek != nil, "the first argument of ACTION does not derive from Peek() on the state stack") {
+	if peek == nil {
+		// a stack of the module's own (a slice with helper methods) instead of the dependency's: the protocol rules below read
+		// Push/Pop/Peek of the dependency's stack and decide nothing about another container
+		own := false
+		for _, r := range rootsOf(fn, d.ac.Call.Args[0], func(v ssa.Value) bool { _, ok := v.(*ssa.Call); return ok }) {
+			switch x := r.(type) {
+			case *ssa.Call:
+				if cf := x.Call.StaticCallee(); cf != nil && strings.HasPrefix(fnPkgPath(cf), modPath) {
+					own = true
+				}
+			case *ssa.IndexAddr, *ssa.Index:
+				own = true
+			}
+		}
+		if own {
+			c.Undecided(rule, "ACTION is consulted with the state on top of the stack", pos, "the state comes from a container of the module's own, not from Peek() on the dependency's stack: the driver protocol is not read off this shape")
+			d.ok = false
+			return d
+		}
+		c.Fail(rule, "ACTION is consulted with the state on top of the stack", pos, "the first argument of ACTION does not derive from Peek() on the state stack")
 		return d
 	}
+	c.Pass(rule, "ACTION is consulted with the state on top of the stack", pos, "")
 	d.stack = recvOf(peek)
 	c.Check(rule, "the state consulted is read in the same iteration as the ACTION call", pos, peek.Block() == d.ac.Block() || peek.Block().Dominates(d.ac.Block()) && !inLoopBetween(peek.Block(), d.ac.Block()),
 		"Peek() is not re-evaluated for each ACTION lookup")
